@@ -35,7 +35,7 @@ type vcall struct {
 
 func (c vcall) mutating() bool {
 	switch c.Op {
-	case "stat", "lstat", "open", "readdir":
+	case "stat", "lstat", "open", "readdir", "syncfail":
 		return false
 	}
 	return true
@@ -171,6 +171,9 @@ type crashVFS struct {
 	mu  sync.Mutex
 	st  *vstate
 	log []vcall
+	// syncFault, when set, is consumed by the next Sync of a temp file: that Sync makes nothing
+	// durable and returns the error (logged as the non-mutating call "syncfail").  See syncfault.go.
+	syncFault error
 }
 
 var _ files.VFS = (*crashVFS)(nil)
@@ -348,6 +351,11 @@ func (w *wfile) Sync() error {
 	defer w.v.mu.Unlock()
 	if w.closed {
 		return os.ErrClosed
+	}
+	if err := w.v.syncFault; err != nil {
+		w.v.syncFault = nil
+		w.v.do(vcall{Op: "syncfail", Ino: w.ino, Path: w.name})
+		return err
 	}
 	w.v.do(vcall{Op: "sync", Ino: w.ino, Path: w.name})
 	return nil
